@@ -317,7 +317,36 @@ def run_case(ctx, rep, spec, recipe, kept, serial, model, start=None, species=No
         rep.agree(); rep.count("header-theorem-applies")
 
 
+def own_pool_twice(ctx, rep, seed):
+    """two thermochemical cooks in pool mode in ONE process with the tool's own (pathos) pool, at different pressures: the
+    second must be the serial result at ITS pressure (worker processes kept from the first cook still hold the first one's
+    pressure and solution arrays)"""
+    import random
+    from amr_kitchen.chef.chef import Chef
+    rng = random.Random(seed)
+    spec = species_spec(rng, nlev=1)
+    path = ctx.newdir("c11own_"); plotgen.materialize(spec, path)
+    case = {"own_pool_twice": seed}
+    rep.case({"own_pool_twice": seed}, nontrivial=True); rep.count("two-pool-mode-cooks-with-the-tool's-own-pool")
+    outs = {}
+    try:
+        for key, pressure, serial in (("pool-1atm", 1.0, False), ("pool-3atm", 3.0, False), ("serial-3atm", 3.0, True)):
+            out = ctx.newdir("c11ownout_")
+            with alarm(600), quiet():
+                Chef(plotfile=path, recipe="HRR", outfile=out, kept_fields=None, serial=serial, mech=MECH, pressure=pressure).cook()
+            outs[key] = [np.array(a) for a in oracle.parse(out)["levels"][0]["data"]]
+    except Exception as e:
+        rep.fail(f"chef raised {type(e).__name__}: {e}", case); return
+    same = lambda a, b: all(x.shape == y.shape and np.allclose(x, y, rtol=1e-12, atol=0, equal_nan=True) for x, y in zip(a, b))
+    if not same(outs["pool-3atm"], outs["serial-3atm"]):
+        rep.fail("the second pool-mode cook of this process (3 atm, the tool's own pool) differs from the serial cook at 3 atm"
+                 + (": it holds the values of the FIRST cook's pressure (1 atm)" if same(outs["pool-3atm"], outs["pool-1atm"]) else ""), case)
+    else:
+        rep.agree()
+
+
 def run(ctx, rep, model=True):
+    own_pool_twice(ctx, rep, ctx.rng.randrange(1 << 30))
     n = 10 if ctx.quick else 50
     for i in range(n):
         spec = plotgen.random_spec(ctx.rng, ndims=3, nlev=[2, 1, 3][i % 3], nf=[3, 4, 2][i % 3], data="smallint", B=2,
@@ -367,6 +396,8 @@ def run(ctx, rep, model=True):
 
 def replay(ctx, rep, obj, model=True):
     c = obj["case"]
+    if "own_pool_twice" in c:
+        own_pool_twice(ctx, rep, c["own_pool_twice"]); return
     for h in c.get("previous") or []:
         # the cook that preceded the failing one in the same process
         run_case(ctx, rep, h["spec"], h["recipe"], h["kept"], h["serial"], False, species=h.get("species"),
